@@ -134,7 +134,11 @@ theorem cloopLoop_all (m : Int) (run : St → Res) (p : Bytes)
         have hstep : stepVal cspec.cntOp v = v + 1 := by simp [stepVal, cspec]
         have hg3 := good_setI m _ (stepVal cspec.cntOp v)
           (good_chQB m rb.st ({ s with c := s.c.setStatic cspec.cnt (.int v) } : St).c.chQB hgr)
-        obtain ⟨h1, h2, h3, h4, h5⟩ := ih (stepVal cspec.cntOp v) (n + 1) _ hg3 hb (by rw [hstep]; omega)
+        -- the next iteration starts with `ctx.Err` cleared
+        have hg3' : Good m ({ ({ rb.st with c := { rb.st.c with chQB := ({ s with c := s.c.setStatic cspec.cnt (.int v) } : St).c.chQB } } : St) with
+            c := { (({ rb.st with c := { rb.st.c with chQB := ({ s with c := s.c.setStatic cspec.cnt (.int v) } : St).c.chQB } } : St).c.setStatic cspec.cnt (.int (stepVal cspec.cntOp v))) with err := none } } : St) :=
+          ⟨hg3.bnd, hg3.wr, rfl, hg3.lim⟩
+        obtain ⟨h1, h2, h3, h4, h5⟩ := ih (stepVal cspec.cntOp v) (n + 1) _ hg3' hb (by rw [hstep]; omega)
         refine ⟨h1, ?_, h3, h4, ?_⟩
         · refine h2.trans ?_
           show rb.st.w.out ++ _ = _
@@ -245,9 +249,9 @@ theorem counter_first_stops (reg : Registry) (m : Int) (hm : 0 < m) (inner : Nod
   have hloop : cloopWith (fun st => writeSeq reg (f+5) [.raw a, inner, .raw b] st) none (f+5) cspec s =
       ok { (writeSeq reg (f+5) [.raw a, inner, .raw b] { ({ s with c := ((loopBounds s.c cspec).1).setStatic cspec.cnt (.int 0) } : St) with
               c := { (((loopBounds s.c cspec).1).setStatic cspec.cnt (.int 0)) with chQB := true } }).st with
-            c := ({ (writeSeq reg (f+5) [.raw a, inner, .raw b] { ({ s with c := ((loopBounds s.c cspec).1).setStatic cspec.cnt (.int 0) } : St) with
+            c := { (({ (writeSeq reg (f+5) [.raw a, inner, .raw b] { ({ s with c := ((loopBounds s.c cspec).1).setStatic cspec.cnt (.int 0) } : St) with
               c := { (((loopBounds s.c cspec).1).setStatic cspec.cnt (.int 0)) with chQB := true } }).st.c with
-                chQB := (((loopBounds s.c cspec).1).setStatic cspec.cnt (.int 0)).chQB, brkD := d } : Ctx).setStatic cspec.cnt (.int 1) } := by
+                chQB := (((loopBounds s.c cspec).1).setStatic cspec.cnt (.int 0)).chQB, brkD := d } : Ctx).setStatic cspec.cnt (.int 1)) with err := none } } := by
     unfold cloopWith cloopAfter
     simp only [hb]
     rw [cloopLoop]
@@ -264,8 +268,8 @@ theorem counter_first_stops (reg : Registry) (m : Int) (hm : 0 < m) (inner : Nod
       | true => right; exact ⟨.breakLoop, by simpa using he, by decide⟩
       | false => left; simpa using he
     · exact hdd
-  rw [loopNode_ok _ s _ (by rw [hs0]; exact hloop) (by exact hgr.err)]
-  refine ⟨rfl, ?_, ?_, ⟨hgr.bnd, hgr.wr, hgr.err, ?_⟩⟩
+  rw [loopNode_ok _ s _ (by rw [hs0]; exact hloop) rfl]
+  refine ⟨rfl, ?_, ?_, ⟨hgr.bnd, hgr.wr, rfl, ?_⟩⟩
   · simp [ok, hd, Ctx.setStatic, Ctx.set]
   · simp only [ok]
     exact ho
